@@ -62,7 +62,8 @@ class Contract:
     def __init__(self, key, prop, types=None, returns=None, requires=(), ensures=(), ensures_exc=(),
                  raises=None, modifies=(), effects=(), loops=None, locals=None, inline=False, funcs=None,
                  ghost=None, mode="prove", unroll=None, comps=None, name=None, setup=(), max_paths=None,
-                 frame=None, lock=None, replay=None, timeout_ms=None, axioms=(), post_setup=(), pure_result=None, asserts=None, nonlinear=False, unreachable_ok=()):
+                 frame=None, lock=None, replay=None, timeout_ms=None, axioms=(), post_setup=(), pure_result=None, asserts=None, nonlinear=False, unreachable_ok=(),
+                 label=""):
         self.key = key
         self.prop = prop if isinstance(prop, (list, tuple)) else [prop]
         self.short = name or key.split(":", 1)[1]
@@ -93,6 +94,7 @@ class Contract:
         self.asserts = dict(asserts or {})
         self.nonlinear = nonlinear
         self.unreachable_ok = list(unreachable_ok)
+        self.label = label   # free text shown next to the contract name in reports (several variants may share a name)
         self.pure_result = pure_result
         if pure_result is not None:
             self.ensures.append(("pure-result", "result == (%s)" % pure_result))
@@ -779,7 +781,7 @@ class Verifier:
                                    "(contradictory assumptions / too strong precondition?); list them in unreachable_ok "
                                    "with a reason if intended" % (missing, c.key))
         return {
-            "key": c.key, "short": c.short, "prop": c.prop, "mode": c.mode,
+            "key": c.key, "short": c.short, "prop": c.prop, "mode": c.mode, "label": c.label,
             "source_sha": frontend.source_hash(mod, node),
             "lines": (node.lineno, node.end_lineno),
             "paths": self.paths, "exits": self.exits, "queries": self.queries,
